@@ -74,6 +74,13 @@ def build_graph(mod, g, order=None):
             objs[i].__xpm__.init_tasks = [objs[p] for p in nd["init"]]
         if nd["task"] is not None:
             objs[i].__xpm__.task = objs[nd["task"]]
+        for k, v in nd.get("tags", []):
+            objs[i].tag(k, v)
+        if nd.get("deps"):
+            from experimaestro.tokens import ProcessCounterToken
+            tok = ProcessCounterToken(4)
+            for _ in range(nd["deps"]):
+                objs[i].add_dependencies(tok.dependency(1))
     return [objs[i] for i in range(len(nodes))]
 
 
